@@ -92,6 +92,22 @@ Theorem C17_last_registered :
   (forall s cur, last_registered [] s cur = cur).
 Proof. exact (conj get_backend_history (conj last_registered_app (fun s cur => eq_refl))). Qed.
 
+(* Time: the outcomes of a process do not depend on clock steps between the calls (update() with the default
+   max_age and commit() consult their backends on EVERY call, whatever the clock did since the previous one) *)
+Theorem C17_clock_irrelevant : forall ops reg root,
+  exec reg root ops = exec reg root (filter (fun o => negb (is_clock o)) ops).
+Proof. exact exec_clock_irrelevant. Qed.
+
+(* Edits: after the children of any node were replaced (list insert/delete/assignment in front of an item,
+   add/remove_referable) the calls are those of the tree as it is then, and commit's paths lead to the object *)
+Theorem C17_after_edit : forall reg t q old new p n, wf_tree t -> addr t q = Some old -> wf_tree new ->
+  t_cls new = t_cls old -> t_key new = t_key old -> addr (replace_at t q new) p = Some n ->
+  commit reg (replace_at t q new) p = Some (run reg KCommit (commit_visits (replace_at t q new) p n)) /\
+  (forall rc, update reg (replace_at t q new) p rc = Some (run reg KUpdate (update_visits (replace_at t q new) p n rc))) /\
+  (forall v, In v (commit_visits (replace_at t q new) p n) ->
+     path_leads (replace_at t q new) (v_store v) (v_obj v) (v_rel v)).
+Proof. exact commit_after_edit. Qed.
+
 (* commit(): in every intended call the relative path leads from the store object to the committed object
    (walking it with get_referable as the Backend docstring prescribes) *)
 Theorem C17_commit_paths_lead : forall root p n v, wf_tree root -> addr root p = Some n ->
